@@ -5,6 +5,7 @@ import (
 	"errors"
 	"fmt"
 	"math/big"
+	"time"
 
 	"github.com/vipnode/vipnode/v2/internal/verifapi"
 	"github.com/vipnode/vipnode/v2/internal/verifmodels/sigs"
@@ -216,4 +217,55 @@ func VerifC01Concurrent() {
 	}
 	verifapi.Class("peer-credit-conflict-ignored", verifapi.KVConflicts() > 0)
 	verifapi.Assert(w.total().Cmp(before) == 0, "c01.concurrent-sum-preserved")
+}
+
+// VerifC01WithdrawDuringUpdate (REAL math/big code, concrete amounts): a
+// wallet withdraws while a client's keep-alive credits a host linked to the
+// same wallet. Whatever the interleaving, the ledger changes by exactly the
+// credit the withdrawal settled; nothing a keep-alive moved is destroyed.
+func VerifC01WithdrawDuringUpdate() {
+	db := newVerifStore()
+	wHost, wClient := store.Account(verifapi.Wallet(0)), store.Account(verifapi.Wallet(1))
+	dep := &pool.VerifDeposits{Store: db, Deposit: map[store.Account]*big.Int{wHost: big.NewInt(0), wClient: big.NewInt(0)}}
+	p := pool.VerifNewPool(db, dep, big.NewInt(100000000000), 60000000000, nil)
+	pay := &PaymentService{NonceStore: db, AccountStore: db, BalanceStore: dep}
+	t0 := time.Unix(1600000000, 0) // concrete: the real math/big code runs on concrete words
+	verifapi.SetNow(t0)
+	host, client := store.NodeID(verifapi.NodeID(1)), store.NodeID(verifapi.NodeID(0))
+	db.SetNode(store.Node{ID: host, IsHost: true, Kind: "geth", LastSeen: t0, URI: "enode://h@192.0.2.1:30303"})
+	db.SetNode(store.Node{ID: client, Kind: "geth", LastSeen: t0})
+	db.AddAccountNode(wHost, host)
+	db.AddAccountNode(wClient, client)
+	// the host's wallet has earned in several steps (so the stored number has spare capacity)
+	db.AddNodeBalance(host, big.NewInt(3000))
+	db.AddNodeBalance(host, big.NewInt(5000))
+	db.AddNodeBalance(client, big.NewInt(1000000000000000))
+	db.UpdateNodePeers(client, []string{string(host)}, 0)
+	verifapi.SetNow(t0.Add(90000000000)) // 1.5 intervals to bill
+	db.UpdateNodePeers(host, nil, 0)
+	nodes := []store.NodeID{client, host}
+	wallets := []store.Account{wHost, wClient}
+	before := pool.VerifTotalCredit(db, nodes, wallets)
+	settledCredit := new(big.Int)
+	pay.Settle = func(account store.Account, amount *big.Int, newBalance *big.Int) (string, error) {
+		verifapi.Yield()
+		// deposit is zero, so what is paid out is exactly the settled credit
+		settledCredit.Add(settledCredit, amount)
+		return "tx", nil
+	}
+	done := make(chan error, 2)
+	go func() {
+		nonce := pool.VerifFreshNonce()
+		done <- pay.Withdraw(context.Background(), sigs.SignFor(string(wHost), "pool_withdraw", nonce), string(wHost), nonce)
+	}()
+	go func() {
+		_, err := pool.VerifUpdate(p, context.Background(), string(client), string(host))
+		done <- err
+	}()
+	e1, e2 := <-done, <-done
+	verifapi.Reach("c01.withdraw-during-update")
+	verifapi.Assert(e1 == nil && e2 == nil, "c01.both-calls-succeed")
+	after := pool.VerifTotalCredit(db, nodes, wallets)
+	want := new(big.Int).Sub(before, settledCredit)
+	verifapi.Assert(after.Cmp(want) == 0, "c01.withdrawal-removes-exactly-what-it-settled")
 }
